@@ -123,6 +123,13 @@ def run(tier, lab):
                  depth=8, tlc_seed=lib.seed(), workers=8)
     lib.tlc_must_pass(r2, "CanaryTCP generation, 2 connections")
     ck.add_tlc(r2, "CanaryTCP: interleaved frames of two connections (-simulate)")
+    # the handler's reader and the receive loop follow the protocol of AgentConn.tla (buffer + notification channel)
+    ra = lib.tlc("MC_AgentConn", timeout=200, constants={"MCCap": "1", "MCRecheck": "FALSE", "MCChunks": "3"}, want_scn=False)
+    lib.tlc_must_pass(ra, "AgentConn (NoStall, InOrder, NoLoss, Delivered) for the canary socket's reader")
+    ck.add_tlc(ra, "AgentConn: reader x receive loop at the grain of their critical sections, safety + liveness")
+    rb = lib.tlc("MC_AgentConn", timeout=200, constants={"MCCap": "0", "MCRecheck": "FALSE", "MCChunks": "3"}, want_scn=False)
+    if rb.violated != "NoStall":
+        raise lib.Infra("an unbuffered notification channel does not violate NoStall in AgentConn (got %s)" % rb.violated)
     uniq = {json.dumps(s["frames"]): s for s in r1.scn + r2.scn}
     pool = [s for s in uniq.values() if len(s["frames"]) >= 3]
     pick = pool if tier == "thorough" else rng.sample(pool, min(420, len(pool)))
